@@ -79,7 +79,7 @@ theorem uint64Val_int (v : Int) (h : uint64Ok v = true) : uint64Val (.int v) = v
     exact this
 
 theorem convertConstY_int (k : IKind) (v : Int) (h : Spec.reprGo k v = true) :
-    convertConstY (.int v) (.i k) = .ok (.r (.i k) (.int v)) := by
+    convertConstY F0 (.int v) (.i k) = .ok (.r (.i k) (.int v)) := by
   simp only [convertConstY]
   cases hs : k.signed
   · simp only [Bool.false_eq_true, if_false]
